@@ -54,6 +54,7 @@ class SemFlow(Flow):
         self.queries = 0
         self.inlined = set()
         self._opaque, self._keep = {}, []
+        self.notes = set()
         self.named_consts = {}              # "path::CONST" -> value (associated constants the code loads with `const path::CONST`)
 
     # ---- helpers for models
@@ -101,6 +102,12 @@ class SemFlow(Flow):
             raise Unsupported("zbool as a term")
         if isinstance(v, tuple) and v and v[0] == "int":
             return const("int_%d" % v[1])
+        if isinstance(v, tuple) and v and v[0] == "sint":
+            return const("sint_%d" % (abs(hash(str(v[1]))) % (10 ** 12)))
+        if isinstance(v, tuple) and v and v[0] == "slice":
+            k = self._opaque.setdefault(id(v), len(self._opaque))
+            self._keep.append(v)
+            return const("opaque_slice_%d" % k)
         if isinstance(v, tuple) and v and v[0] == "fnitem":
             return const("fn_" + re.sub(r"\W+", "_", v[1])[:60])
         if isinstance(v, tuple) and v and v[0] in ("vec", "set", "iter", "names", "optflag"):
@@ -113,6 +120,16 @@ class SemFlow(Flow):
     @staticmethod
     def is_int(v):
         return isinstance(v, tuple) and len(v) == 2 and v[0] == "int"
+
+    @staticmethod
+    def is_num(v):
+        return isinstance(v, tuple) and len(v) == 2 and v[0] in ("int", "sint")
+
+    @staticmethod
+    def num(v):
+        return z3.IntVal(v[1]) if v[0] == "int" else v[1]
+
+    WIDTHS = {"u8": 8, "u16": 16, "u32": 32, "u64": 64, "usize": 64, "i8": 8, "i16": 16, "i32": 32, "i64": 64, "isize": 64}
 
     def project(self, P, v, p):
         if isinstance(v, tuple) and v and v[0] == "agg" and p[0] == "variant":
@@ -160,6 +177,13 @@ class SemFlow(Flow):
         m = re.match(r"^(.*) as (.+?) \((\w+)\)$", txt)
         if m and re.match(r"^(?:no_retag )?(copy|move) |^const ", m.group(1)):
             v = self.operand(P, m.group(1))
+            if self.is_num(v) and m.group(3) == "IntToInt" and m.group(2).strip() in self.WIDTHS:
+                w = self.WIDTHS[m.group(2).strip()]
+                if v[0] == "int":
+                    return ("int", v[1] % (1 << w))
+                return ("sint", v[1] % (1 << w)) if w < 64 else v
+            if isinstance(v, tuple) and v and v[0] == "slice":
+                return v
             if isinstance(v, Ref) or (isinstance(v, tuple) and v and v[0] in ("refinto", "agg")):
                 if m.group(3) in ("Transmute", "PtrToPtr", "PointerCoercion"):
                     return v
@@ -179,6 +203,31 @@ class SemFlow(Flow):
                     if op.endswith("WithOverflow"):
                         return ("agg", "tuple2", [("int", r), TRUE if (r < 0 or r >= 1 << 64) else FALSE])
                     return ("int", r)
+                if self.is_num(a) and self.is_num(b):      # symbolic machine integers (mathematical; overflow flags are assumed false and recorded)
+                    op, x, y = m.group(1), self.num(a), self.num(b)
+                    if op in ("Eq", "Ne", "Lt", "Le", "Gt", "Ge"):
+                        e = {"Eq": x == y, "Ne": x != y, "Lt": x < y, "Le": x <= y, "Gt": x > y, "Ge": x >= y}[op]
+                        return self.mkbool(P, e)
+                    e = {"A": x + y, "S": x - y, "M": x * y}[op[0]]
+                    if op.endswith("WithOverflow"):
+                        self.notes.add("arithmetic on symbolic integers is mathematical: no overflow within the stated ranges")
+                        return ("agg", "tuple2", [("sint", e), FALSE])
+                    return ("sint", e)
+        m = re.match(r"^&(?:mut |raw const |raw mut )?(?:\(fake\) )?\(\*(_\d+)\)(?:\[(\d+) of (\d+)\])?$", txt)
+        if m:
+            base = self.init_value(P, m.group(1))
+            if isinstance(base, tuple) and base and base[0] == "slice":
+                if m.group(2) is None:
+                    return base                                   # a pointer to the slice stands for the slice
+                i = int(m.group(2))
+                if i >= len(base[1]):
+                    raise Unsupported("constant index past the modelled slice")
+                return base[1][i]
+        m = re.match(r"^PtrMetadata\((?:copy|move) (_\d+)\)$", txt)
+        if m:
+            base = self.init_value(P, m.group(1))
+            if isinstance(base, tuple) and base and base[0] == "slice":
+                return ("int", len(base[1]))
         m = re.match(r"^Not\((?:copy|move) (_\d+)\)$", txt)
         if m and self.fn.types.get(m.group(1)) == "bool":
             return self.mkbool(P, z3.Not(truth(self, self.read(P, m.group(1), []))))
@@ -226,7 +275,17 @@ class SemFlow(Flow):
                     if k == "otherwise":
                         return tgt
                 return "unreachable"
-            if isinstance(v, tuple) and v and v[0] == "zbool":
+            if self.is_int(v):
+                for k, tgt in arms:
+                    if k != "otherwise" and int(k) == v[1]:
+                        return tgt
+                for k, tgt in arms:
+                    if k == "otherwise":
+                        return tgt
+                return "unreachable"
+            if isinstance(v, tuple) and v and v[0] == "sint":
+                d = v[1]
+            elif isinstance(v, tuple) and v and v[0] == "zbool":
                 d = z3.If(v[1], 1, 0)
             elif isinstance(v, tuple) and v and v[0] == "disc":
                 d = DISC(v[1])
@@ -299,8 +358,36 @@ class SemFlow(Flow):
                     P.calls.append((callee, args, res))
                     self.write(P, l, p, res)
                     return ret
-            # default: uninterpreted, but references are passed as the value they point to
-            return Flow.exec(self, P, st, work, steps)
+            # default: an uninterpreted function of its arguments; a structured argument (an aggregate holding references) is an opaque handle of its place
+            if any(re.search(pat, callee) for pat in self.stop_calls):
+                P.calls.append(("STOP:" + callee, [], None))
+                return "return"
+            args = [self.operand(P, a) for a in split_top(call[start + 1:k]) if a.strip()]
+
+            def handle(a):
+                try:
+                    if isinstance(a, Ref):
+                        return fun("ref", 1)(self.term(self.read(P, a.local, list(a.path))))
+                    if isinstance(a, tuple) and a and a[0] == "refinto":
+                        return fun("ref", 1)(self.term(a[1]))
+                    return self.term(a)
+                except Unsupported:
+                    if isinstance(a, Ref):
+                        return const("handle_" + re.sub(r"\W+", "_", repr(a)))
+                    k2 = self._opaque.setdefault(id(a), len(self._opaque))
+                    self._keep.append(a)
+                    return const("handle_val_%d" % k2)
+            targs = [handle(a) for a in args]
+            name = re.sub(r"<impl at [^>]*>", "impl", callee)
+            name = re.sub(r"\W+", "_", name)[:80]
+            res = fun("call_" + name, len(targs))(*targs) if targs else const("call_" + name)
+            P.calls.append((callee, args, res))
+            for a in args:
+                if isinstance(a, Ref) and a.mut:
+                    self.write(P, a.local, list(a.path), const("havoc_%s_%d" % (re.sub(r"\W+", "_", a.local), self.ctr.next())))
+            l, p = self.parse_place(dest)
+            self.write(P, l, p, res)
+            return ret
         return Flow.exec(self, P, st, work, steps)
 
     # ---- inlining
@@ -316,6 +403,7 @@ class SemFlow(Flow):
         sub = SemFlow(self.fns, fn, self.models, self.vidx, counter=self.ctr, max_steps=self.max_steps, prune=self.prune)
         sub.inlined = self.inlined
         sub.named_consts = self.named_consts
+        sub.notes = self.notes
         self.inlined.add(fn.name)
         pre = {k: v for k, v in P.locals.items() if not re.fullmatch(r"_\d+", k)}
         if len(fn.params) != len(args):
@@ -344,7 +432,7 @@ class SemFlow(Flow):
             pre[pn] = export(a)
         outs = sub.run("bb0", stop_at=(), pre=pre, pc=P.pc)
         self.queries += sub.queries
-        rets = [(Q.pc[len(P.pc):], Q.locals.get("_0"), Q) for Q, end in outs if end == "return"]
+        rets = [(Q.pc[len(P.pc):], Q.locals["_0"] if Q.locals.get("_0") is not None else const("unit"), Q) for Q, end in outs if end == "return"]
         if not rets:
             raise Unsupported("inlined function has no returning path: " + fn.name)
         if len(rets) == 1:
@@ -353,7 +441,7 @@ class SemFlow(Flow):
             for k, v in Q.locals.items():
                 if not re.fullmatch(r"_\d+", k):
                     P.locals[k] = v
-            P.calls.extend(Q.calls[len(P.calls):])
+            P.calls.extend(Q.calls)          # the callee's path starts with an empty call record
             if isinstance(rv, Ref) and re.fullmatch(r"_\d+", rv.local):
                 raise Unsupported("inlined function returns a reference to its own local")
             return rv
@@ -367,6 +455,8 @@ class SemFlow(Flow):
                     raise Unsupported("inlined function returns a reference to its own local")
                 alts.append((newpc, rv, {k: v for k, v in Q.locals.items() if not re.fullmatch(r"_\d+", k)}))
             return ("fork", alts)
+        common = [c for c in rets[0][2].calls if all(any(c[0] == d[0] and c[1] == d[1] for d in Q2.calls) for _, _, Q2 in rets[1:])]
+        P.calls.extend(common)           # calls made on every returning path of the callee
         r = self.fresh("inl")
         conds = []
         for (newpc, rv, Q), t in zip(rets, terms):
